@@ -103,3 +103,26 @@ Print Assumptions C02_read_sound.
 Print Assumptions C02_truncated_slice.
 Print Assumptions C02_truncated_stream.
 Print Assumptions C02_holds.
+
+(** ** tie to the source text (see Props/C01.v): the re-translated bodies of the
+    five slice parsers, with Rust's panicking [+], slicing and indexing kept,
+    equal the model's parsers on every byte string -- so the totality theorems
+    above are statements about the text of src/header.rs and src/message.rs. *)
+From RepeV Require Import Base.GenFramePrelude Gen.FrameGen Proofs.FrameGenAgree.
+
+Theorem C02_source_translation :
+  agrees1 gen_decode decode /\
+  agrees1 gen_from_slice from_slice /\
+  agrees1 gen_from_slice_exact from_slice_exact /\
+  agrees1 gen_view_from_slice view_from_slice /\
+  agrees1 gen_view_from_slice_exact view_from_slice_exact.
+Proof. exact c02_source_translation. Qed.
+
+Check C02_source_translation :
+  agrees1 gen_decode decode /\
+  agrees1 gen_from_slice from_slice /\
+  agrees1 gen_from_slice_exact from_slice_exact /\
+  agrees1 gen_view_from_slice view_from_slice /\
+  agrees1 gen_view_from_slice_exact view_from_slice_exact.
+
+Print Assumptions C02_source_translation.
